@@ -611,6 +611,9 @@ class LoopBodyContract:
     def perturbed(self, c):
         return []
 
+    def witness(self, c):
+        return {}
+
 
 def verify_body(con, registry, opts=None, initial=None):
     import ast as _ast
@@ -631,6 +634,7 @@ def verify_body(con, registry, opts=None, initial=None):
     def run(I):
         env = con.pre_env(I)
         c = Ctx(I, env)
+        I.witness.update(con.witness(c))
         for cl in con.requires(c):
             assume_clause(I, cl)
         if not I.feasible():
